@@ -363,6 +363,23 @@ impl Family for Emission {
         out.class = format!("{}{}:{}shown/{}allowed/{}notes", if cfg.json { "json" } else { "human" }, if cfg.color { "+colour" } else { "" }, shown.min(6), (diags.len() - shown).min(3), diags.iter().map(|d| d.notes.len()).sum::<usize>().min(6));
         out.steps = diags.len() as u64 + 1;
         check_stream(&stream, &diags, &cfg, "emission", &mut out, &input);
+        // "in the order it was recorded": what is shown under a suppression is what is shown without it, minus the
+        // suppressed entries, in the same order (the order the API returns is compared with the stream above; this
+        // compares it with an independent run)
+        if cfg.allow != 0 {
+            let plain = SliceOptions::try_parse_from(Config { allow: 0, ..cfg }.argv()).expect("options without --allow");
+            let rendered2 = render_program(&p, &layout);
+            if let Ok(c0) = compile_rendered(rendered2, Some(&plain)) {
+                let key = |d: &DiagObs| (d.code.clone(), d.message.clone(), d.file.clone(), d.span);
+                let base: Vec<_> = c0.diags.iter().map(key).collect();
+                let shown_now: Vec<_> = diags.iter().filter(|d| d.level != "allowed").map(key).collect();
+                let mut it = base.iter();
+                let in_order = shown_now.iter().all(|k| it.any(|b| b == k));
+                if !in_order {
+                    out.violate("c14/emission/order-differs-from-the-run-without-the-suppression", format!("shown with the suppression: {:?}\nrecorded without it: {:?}\n{}", shown_now.iter().map(|k| (&k.0, k.3)).collect::<Vec<_>>(), base.iter().map(|k| (&k.0, k.3)).collect::<Vec<_>>(), input()));
+                }
+            }
+        }
         out
     }
 }
